@@ -165,6 +165,10 @@ def check(ctx):
         for j, g in enumerate(gps[:2]):
             cfgs[('GP-deep', j)] = dict(g, functions=list(runlevel.FUNCSETS[j % 2]), min_depth=2, max_depth=4,
                                         n_agents=max(g['n_agents'], 10), seed=g['seed'] + 5 + j)
+        # histories that hold +inf (an objective with a hard constraint): get() returns what was recorded
+        base = [c for c in cfgs.values() if c['kind'] in ('SCA', 'HC', 'FA') and c['space'] == 'search' and not c['store_best_only']]
+        for j, g in enumerate(base[:2]):
+            cfgs[('infpen', j)] = dict(g, objective='infpen', box='wide', lb=[-4.0] * g['n_vars'], ub=[6.0] * g['n_vars'], n_agents=max(g['n_agents'], 5))
         n_hist = 0
         prev_hist = None
         for k, c in cfgs.items():
